@@ -716,6 +716,7 @@ impl<T> LockFreeStack<T> {
     }
 
     fn pop(&self) -> Option<T> {
+        verif_lock_scope!(_pop_scope, &self.pop_lock as *const _);
         let _pop_guard = self.pop_lock.lock();
         loop {
             verif_point!("sp.pop.load");
